@@ -211,14 +211,24 @@ fn check(c: &Case, ctx: &Ctx) -> Outcome {
         }
     }
     let dir = ctx.case_dir();
+    let other_compression_cell = std::cell::Cell::new(false);
     let r: Result<(), Outcome> = (|| {
+        let mut other_compression = false;
         let mut list = String::new();
         for (i, (name, recs)) in samples.iter().enumerate() {
             cli::write_fasta_auto(&dir.join(format!("smp{i}.fa")), recs, None);
             let fi = if repeat_at == Some(i) { 2 } else { i };
-            list += &format!("{name}\tsmp{fi}.fa\n");
+            // a few files of the larger builds are compressed with bzip2 or xz (read transparently, like gzip)
+            let ext = if c.cmd == Cmd::Build && samples.len() >= 10 && repeat_at.is_none() && i % 7 == 5 && c.rc_mask % 2 == 0 { if i % 2 == 0 { ".xz" } else { ".bz2" } } else { "" };
+            if !ext.is_empty() && !cli::compress_external(&dir.join(format!("smp{i}.fa")), &dir.join(format!("smp{i}.fa{ext}")), &ext[1..]) {
+                list += &format!("{name}\tsmp{fi}.fa\n");
+            } else {
+                if !ext.is_empty() { other_compression = true; }
+                list += &format!("{name}\tsmp{fi}.fa{ext}\n");
+            }
         }
         std::fs::write(dir.join("list.txt"), list).unwrap();
+        other_compression_cell.set(other_compression);
         if c.cmd == Cmd::BuildFastq {
             // paired reads: the first half of each genome in file 1, the second half (reverse-complemented) in file 2
             let mut fq = String::new();
@@ -290,6 +300,7 @@ fn check(c: &Case, ctx: &Ctx) -> Outcome {
                 Cmd::Distance => "distance",
             }];
             if blank_half { cl.push("half_of_the_list_without_any_kmer"); }
+            if other_compression_cell.get() { cl.push("inputs_compressed_with_bzip2_or_xz"); }
             if samples.len() >= 10 { cl.push(">=10_samples(parallel merge)"); }
             if samples.len() >= 70 { cl.push(">=70_samples(merge depth>=3)"); }
             if samples.len() >= 150 { cl.push(">=150_samples(merge depth 4)"); }
